@@ -19,7 +19,9 @@ import (
 
 type c01Ident struct{ typ, key string }
 
-var c01Idents = []c01Ident{{"a", ""}, {"a", "0"}, {"ab", ""}, {"a", "b"}, {"b", "1"}, {"a0", ""}}
+// identities chosen so that type+key concatenations collide, raw and with the key default: ("ab","") ~ ("a","b"),
+// ("ab","0") ~ ("a","b0"), ("a0","") ~ ("a","0")
+var c01Idents = []c01Ident{{"a", ""}, {"a", "0"}, {"ab", ""}, {"a", "b"}, {"a", "b0"}, {"a0", ""}}
 
 func normKey(k string) string {
 	if k == "" {
@@ -266,7 +268,7 @@ func checkC01(r *mc.Report, thorough bool) {
 	if thorough {
 		n = 4
 	}
-	rule := fmt.Sprintf("all point lists of 1..%d points over 6 identities (incl. (a,\"\")/(a,\"0\") and the (ab,\"\")/(a,b)/(a0,\"\") concatenation collisions), 4 timestamp assignments (small / int64 extremes, rising / falling against the other fields), x all permutations x all compositions into batches x one re-delivery of any batch at any later position; read-back checked after every delivery", n)
+	rule := fmt.Sprintf("all point lists of 1..%d points over 6 identities (incl. (a,\"\")/(a,\"0\") and the (ab,\"\")/(a,b)/(a,b0)/(a0,\"\") concatenation collisions, raw and with the key default), 4 timestamp assignments (small / int64 extremes, rising / falling against the other fields), x all permutations x all compositions into batches x one re-delivery of any batch at any later position; read-back checked after every delivery", n)
 	r.Explore(mc.Config{Name: fmt.Sprintf("node-points-n%d", n), Rule: rule, SelfCheckEvery: 5000}, c01Body(false, n))
 	r.Explore(mc.Config{Name: fmt.Sprintf("edge-points-n%d", n), Rule: rule, SelfCheckEvery: 5000}, c01Body(true, n))
 	sameRule := "three points of one identity of which two (any two) or all three carry the same value, text, data, tombstone and origin and differ only in their time; timestamps rising / falling with the index; all permutations x all compositions into batches x one re-delivery; read-back (time included) checked after every delivery"
